@@ -162,6 +162,15 @@ fn vertex_case(rng: &mut Rng, rep: &mut Report, big: bool) {
         for (k, v) in &extras {
             q.insert(k.clone(), v.clone());
         }
+        // a query may already carry (stale) matches, e.g. a re-submitted request with edited coordinates: the
+        // matcher's result replaces them
+        if rng.chance(0.2) {
+            q.insert("origin_vertex".into(), json!(rng.below(n.max(1) + 3)));
+            if rng.chance(0.5) {
+                q.insert("destination_vertex".into(), json!(rng.below(n.max(1) + 3)));
+            }
+            rep.count("queries_with_stale_matches", 1);
+        }
         let before = Value::Object(q);
         let mut after = before.clone();
         let replay = || {
@@ -228,20 +237,20 @@ fn vertex_case(rng: &mut Rng, rep: &mut Report, big: bool) {
                     }
                 }
             }
-            if !with_dest && after.get("destination_vertex").is_some() {
+            if !with_dest && after.get("destination_vertex").is_some() && before.get("destination_vertex").is_none() {
                 rep.violate("C16|vertex|destination-invented", "N4 a destination vertex was written for a query without destination".into(), replay);
             }
         } else {
             // a refused coordinate must not have been matched
             for (label, _, _, v) in &expectations {
-                if *v == Some(false) && *label == "origin" && after.get("origin_vertex").is_some() {
+                if *v == Some(false) && *label == "origin" && after.get("origin_vertex").is_some() && after.get("origin_vertex") != before.get("origin_vertex") {
                     rep.violate("C16|vertex|match-written-for-refused-coordinate", "N2 the origin is beyond tolerance but origin_vertex was written".into(), replay);
                 }
             }
         }
         // N3 all other fields unchanged
         if let (Some(b), Some(a)) = (before.as_object(), after.as_object()) {
-            for (k, v) in b {
+            for (k, v) in b.iter().filter(|(k, _)| *k != "origin_vertex" && *k != "destination_vertex") {
                 if a.get(k) != Some(v) {
                     rep.violate("C16|vertex|other-field-changed", format!("N3 field {k} changed from {v} to {:?}", a.get(k)), replay);
                     break;
@@ -396,6 +405,13 @@ fn edge_case(rng: &mut Rng, rep: &mut Report, big: bool) {
         for (k, v) in extra_fields(rng) {
             q.insert(k, v);
         }
+        if rng.chance(0.2) {
+            q.insert("origin_edge".into(), json!(rng.below(n.max(1) + 3)));
+            if rng.chance(0.5) {
+                q.insert("destination_edge".into(), json!(rng.below(n.max(1) + 3)));
+            }
+            rep.count("queries_with_stale_matches", 1);
+        }
         let admissible: Vec<usize> = (0..n).filter(|e| class_ok[*e] && vehicle_ok[*e]).collect();
         let before = Value::Object(q);
         let mut after = before.clone();
@@ -475,14 +491,14 @@ fn edge_case(rng: &mut Rng, rep: &mut Report, big: bool) {
                     None => rep.violate(&format!("C16|edge|match-not-written|{label}"), format!("N1 matching succeeded but {field} is absent"), replay),
                 }
             }
-            if !with_dest && after.get("destination_edge").is_some() {
+            if !with_dest && after.get("destination_edge").is_some() && before.get("destination_edge").is_none() {
                 rep.violate("C16|edge|destination-invented", "N4 a destination edge was written for a query without destination".into(), replay);
             }
-        } else if after.get("origin_edge").is_some() || after.get("destination_edge").is_some() {
+        } else if (after.get("origin_edge").is_some() && after.get("origin_edge") != before.get("origin_edge")) || (after.get("destination_edge").is_some() && after.get("destination_edge") != before.get("destination_edge")) {
             rep.violate("C16|edge|match-written-on-error", "N2 matching failed but an edge field was written".into(), replay);
         }
         if let (Some(b), Some(a)) = (before.as_object(), after.as_object()) {
-            for (k, v) in b {
+            for (k, v) in b.iter().filter(|(k, _)| *k != "origin_edge" && *k != "destination_edge") {
                 if a.get(k) != Some(v) {
                     rep.violate("C16|edge|other-field-changed", format!("N3 field {k} changed from {v} to {:?}", a.get(k)), replay);
                     break;
@@ -521,7 +537,7 @@ pub fn run(tier: Tier, seed: u64) -> MonOut {
     crate::appgen::restore_stderr(saved);
     MonOut {
         report: rep,
-        rule: "generated vertex files and edge geometry files (1..60 candidates, 8 % with 200..2000; uniform, collinear, clustered and gridded layouts with duplicates) loaded by the real RTreePlugin / EdgeRtreeInputPlugin; 12..30 queries per index with coordinates on a candidate, metres away, kilometres away, degrees away, anywhere on the globe, or between two candidates; optional destination; tolerance absent or placed at 0.1x, 0.5x, 0.99x, 1.01x, 2x, 10x the true distance in any distance unit or without unit; road-class filters (numeric / mapped names) and vehicle parameters excluding 0..all candidates; arbitrary extra fields. oracle = exhaustive scan under the plugin's own measure (squared coordinate distance to the vertex / to geo's centroid of the geometry, f32) over admissible candidates, and an independent f64 haversine for the tolerance. non-trivial = >= 3 candidates; distinct by (index size, coordinates, tolerance placement, filters)".into(),
+        rule: "generated vertex files and edge geometry files (1..60 candidates, 8 % with 200..2000; uniform, collinear, clustered and gridded layouts with duplicates) loaded by the real RTreePlugin / EdgeRtreeInputPlugin; 12..30 queries per index with coordinates on a candidate, metres away, kilometres away, degrees away, anywhere on the globe, or between two candidates; optional destination; tolerance absent or placed at 0.1x, 0.5x, 0.99x, 1.01x, 2x, 10x the true distance in any distance unit or without unit; road-class filters (numeric / mapped names) and vehicle parameters excluding 0..all candidates; arbitrary extra fields; a fifth of the queries already carry (stale) origin / destination matches that the matcher has to replace. oracle = exhaustive scan under the plugin's own measure (squared coordinate distance to the vertex / to geo's centroid of the geometry, f32) over admissible candidates, and an independent f64 haversine for the tolerance. non-trivial = >= 3 candidates; distinct by (index size, coordinates, tolerance placement, filters)".into(),
         assumptions: vec![
             "geo's Centroid is trusted for the edge matcher's reference point".into(),
             "tolerance verdicts only outside a don't-care band of 1 % + 3 m around the tolerance (boundary and f32 haversine noise)".into(),
